@@ -4,7 +4,9 @@
 #   ./run.sh --setup          warm the Go build cache (plain and -race binaries)
 # Environment: VERIF_SEED (default 1), VERIF_TIER (used when no tier argument is given),
 #              VERIF_REPO (default /repo; only the self-test points it at a mutated scratch copy),
-#              VERIF_WORKERS (default: all cores), VERIF_COVER (directory for Go coverage counters of the library; self-test only).
+#              VERIF_WORKERS (default: all cores), VERIF_COVER (directory for Go coverage counters of the library; self-test only),
+#              VERIF_OUT (self-test only: write evidence/ and replay/ there instead of next to this script, so that runs against
+#              seeded changes do not overwrite the evidence of the real tree).
 # Every invocation rebuilds the monitor binary from the repository's current working tree.
 set -u
 VERIF_DIR="$(cd "$(dirname "${BASH_SOURCE[0]}")" && pwd)"
